@@ -353,6 +353,117 @@ def windowJ (j : Json) : M Json := do
   pure (Json.mkObj [("outcome", Json.str "ok"),
     ("bits", Json.arr (w.map (fun f => Json.str (toString f.toBits.toNat))).toArray)])
 
+/-! HDF5 persistence model (C07 / C17) -/
+open Dnp.H5 in
+def jSc (j : Json) : M Sc := do
+  match ← jStr (← jField j "t") with
+  | "none" => pure .none
+  | "bool" => pure (.bool ((← jField j "v").getBool?.toOption.getD false))
+  | "num" => pure (.num (← jRat (← jField j "v")))
+  | "str" => pure (.str (← jStr (← jField j "v")))
+  | t => throw s!"bad scalar tag {t}"
+
+open Dnp.H5 in
+def jPyVal (j : Json) : M PyVal := do
+  match ← jStr (← jField j "t") with
+  | "seq" => do pure (.seq (← (← jArr (← jField j "v")).mapM jSc))
+  | "ndarr" => do pure (.ndarr (← (← jArr (← jField j "v")).mapM jSc))
+  | _ => do pure (.sc (← jSc j))
+
+open Dnp.H5 in
+def jKV (j : Json) : M (List (String × PyVal)) := do
+  (← jArr j).mapM (fun e => do
+    match ← jArr e with
+    | [k, v] => pure (← jStr k, ← jPyVal v)
+    | _ => throw "bad kv")
+
+open Dnp.H5 in
+def jObj (j : Json) : M Obj := do
+  let hist ← (← jArr (← jField j "hist")).mapM (fun e => do
+    match ← jArr e with
+    | [n, ps] => pure (← jStr n, ← jKV ps)
+    | _ => throw "bad hist")
+  pure { dtype := ← jStr (← jField j "dtype"), shape := ← jNatList (← jField j "shape"),
+         data := ← jStrList (← jField j "data"), dims := ← jStrList (← jField j "dims"),
+         coords := ← (← jArr (← jField j "coords")).mapM jRatList,
+         attrs := ← jKV (← jField j "attrs"), dattrs := ← jKV (← jField j "dattrs"), hist }
+
+open Dnp.H5 in
+def jWorkspace (j : Json) : M Workspace := do
+  (← jArr j).mapM (fun e => do
+    match ← jArr e with
+    | [k, v] =>
+      let kind ← jStr (← jField v "kind")
+      if kind == "data" then pure (← jStr k, Entry.data (← jObj (← jField v "obj")))
+      else pure (← jStr k, Entry.dict (← jKV (← jField v "kv")))
+    | _ => throw "bad ws entry")
+
+open Dnp.H5 in
+def scJ : Sc → Json
+  | .none => Json.mkObj [("t", "none")]
+  | .bool b => Json.mkObj [("t", "bool"), ("v", Json.bool b)]
+  | .num q => Json.mkObj [("t", "num"), ("v", ratJ q)]
+  | .str s => Json.mkObj [("t", "str"), ("v", Json.str s)]
+
+open Dnp.H5 in
+def pyJ : PyVal → Json
+  | .sc s => scJ s
+  | .seq xs => Json.mkObj [("t", "seq"), ("v", Json.arr (xs.map scJ).toArray)]
+  | .ndarr xs => Json.mkObj [("t", "ndarr"), ("v", Json.arr (xs.map scJ).toArray)]
+
+open Dnp.H5 in
+def storedJ : Stored → Json
+  | .scalar s => Json.mkObj [("s", scJ s)]
+  | .array xs => Json.mkObj [("a", Json.arr (xs.map scJ).toArray)]
+
+open Dnp.H5 in
+def kvObjJ {β : Type} (f : β → Json) (kv : List (String × β)) : Json := Json.mkObj (kv.map (fun p => (p.1, f p.2)))
+
+open Dnp.H5 in
+def nodeJ : Node → Json
+  | .data g => Json.mkObj [("type", "dnpdata"), ("dtype", Json.str g.dtype), ("shape", natsJ g.shape),
+      ("data", strsJ g.data),
+      ("scales", Json.arr (g.scales.map (fun p => Json.arr #[Json.str p.1, Json.arr (p.2.map ratJ).toArray])).toArray),
+      ("attrs", kvObjJ storedJ g.attrsA), ("attrs_ds", kvObjJ (fun xs => Json.arr (xs.map scJ).toArray) g.attrsD),
+      ("dattrs", kvObjJ storedJ g.dattrsA), ("dattrs_ds", kvObjJ (fun xs => Json.arr (xs.map scJ).toArray) g.dattrsD),
+      ("proc", Json.arr (g.proc.map (fun p => Json.arr #[Json.str p.1, kvObjJ storedJ p.2])).toArray)]
+  | .dict kv => Json.mkObj [("type", "dict"), ("attrs", kvObjJ storedJ kv)]
+
+open Dnp.H5 in
+def objOutJ (o : Obj) : Json :=
+  Json.mkObj [("dtype", Json.str o.dtype), ("shape", natsJ o.shape), ("data", strsJ o.data), ("dims", strsJ o.dims),
+    ("coords", Json.arr (o.coords.map (fun c => Json.arr (c.map ratJ).toArray)).toArray),
+    ("attrs", kvObjJ pyJ o.attrs), ("dattrs", kvObjJ pyJ o.dattrs),
+    ("hist", Json.arr (o.hist.map (fun e => Json.arr #[Json.str e.1, kvObjJ pyJ e.2])).toArray)]
+
+open Dnp.H5 in
+def loadedJ : Loaded → Json
+  | .single o => Json.mkObj [("single", objOutJ o)]
+  | .ws w => Json.mkObj [("ws", Json.mkObj (w.map (fun p => (p.1, match p.2 with
+      | .data o => Json.mkObj [("kind", "data"), ("obj", objOutJ o)]
+      | .dict kv => Json.mkObj [("kind", "dict"), ("kv", kvObjJ pyJ kv)]))))]
+
+open Dnp.H5 in
+def diskJ : Disk → Json
+  | .absent => Json.null
+  | .holds t => Json.mkObj [("tree", Json.mkObj (t.map (fun p => (p.1, nodeJ p.2)))), ("loaded", loadedJ (load t))]
+
+open Dnp.H5 in
+def h5J (j : Json) : M Json := do
+  let w ← match jFieldOpt j "single" with
+    | some o => do pure (wrap (← jObj o))
+    | none => jWorkspace (← jField j "ws")
+  let prev ← match jFieldOpt j "prev" with
+    | some p => do
+      let pw ← match jFieldOpt p "single" with
+        | some o => do pure (wrap (← jObj o))
+        | none => jWorkspace (← jField p "ws")
+      pure (match writeAll pw with | some t => Disk.holds t | none => Disk.absent)
+    | none => pure Disk.absent
+  let ow := (jFieldOpt j "overwrite").isSome
+  let r := save prev w ow
+  pure (Json.mkObj [("outcome", Json.str "ok"), ("raised", Json.bool r.raised), ("disk", diskJ r.disk)])
+
 partial def loop (h : IO.FS.Stream) (out : IO.FS.Stream) (s : Store) : IO Unit := do
   let line ← h.getLine
   if line.isEmpty then return ()
@@ -362,6 +473,12 @@ partial def loop (h : IO.FS.Stream) (out : IO.FS.Stream) (s : Store) : IO Unit :
     out.putStrLn (Json.compress (Json.mkObj [("outcome", Json.str ("driver-error:" ++ e))]))
     loop h out s
   | .ok j =>
+    if (j.getObjVal? "op").toOption == some (Json.str "h5") then
+      match h5J j with
+      | .ok r => do out.putStrLn (Json.compress r); loop h out s
+      | .error e => do
+        out.putStrLn (Json.compress (Json.mkObj [("outcome", Json.str ("driver-error:" ++ e))])); loop h out s
+    else
     if (j.getObjVal? "op").toOption == some (Json.str "window") then
       match windowJ j with
       | .ok r => do out.putStrLn (Json.compress r); loop h out s
